@@ -637,6 +637,24 @@ class Case final : public sim::CaseBase {
     pool.SoftStop();
     pool.Wait();
     WithOutput([this](auto& f) { Resample(f); });
+    // shared inputs whose handles the caller kept: the combinator was one observer among others, so the kept copies must
+    // still hold what their producers set (a value may be moved out only by the provably last owner)
+    if (keep_shared_copies) {
+      for (std::size_t i = 0; i < ins.size() && i < it.sf.size(); ++i) {
+        if (!ins[i].shared || !it.sf[i].Valid()) {
+          continue;
+        }
+        if (!it.sf[i].Ready()) {
+          sim::Fail("LOST", "shared input %zu is not Ready although its producer finished", i);
+          continue;
+        }
+        SIM_PROBE("kept_shared_input_read_after_combinator");
+        const Outcome got = sim::Observe(std::as_const(it.sf[i]).Get(), "kept copy of a shared input, read after the combinator finished");
+        if (!sim::Failed() && got != Expected(ins[i])) {
+          sim::Fail("INPUT_DAMAGED", "shared input %zu: the caller's kept copy now holds %s, its producer set %s", i, got.Str().c_str(), Expected(ins[i]).Str().c_str());
+        }
+      }
+    }
     it = Inputs<T>{};
     iv = Inputs<void>{};
     ii = Inputs<int>{};
@@ -808,5 +826,5 @@ class Case final : public sim::CaseBase {
 }  // namespace
 
 SIM_HARNESS("C09", "when", Case,
-            "WRONG_RESULT EARLY NOT_FIRST_FAILURE NOT_FIRST NOT_FIRST_VALUE NOT_LAST_FAILURE NOT_COMPLETED_WHEN_DECIDED OUTPUT_CHANGED EMPTY_INPUT_VALID LOST "
+            "WRONG_RESULT EARLY NOT_FIRST_FAILURE NOT_FIRST NOT_FIRST_VALUE NOT_LAST_FAILURE NOT_COMPLETED_WHEN_DECIDED OUTPUT_CHANGED EMPTY_INPUT_VALID INPUT_DAMAGED LOST "
             "LEAK LEAK_OBJECT DOUBLE_DESTROY USE_AFTER_DESTROY MOVED_FROM_READ TORN DEADLOCK CRASH:*")
